@@ -481,6 +481,24 @@ static bool cmp_url(ada_url h, const RU& u, const char* via, const std::string& 
   return ok;
 }
 
+// ada_c.h documents ada_get_components as "a pointer to the internal url_components", the C face of the C++
+// `const url_components&`: a pointer taken earlier must keep reading what the C++ reference reads after later setters on
+// the same handle and after calls on other handles (class .../ada_get_components:held-pointer:<field>).
+static bool cmp_held(const ada_url_components* c, const RU& u, const std::string& g, const std::string& ctx) {
+  if (!c || !u) return true;
+  const ada::url_components& e = u->get_components();
+  const uint32_t cv8[8] = {c->protocol_end, c->username_end, c->host_start, c->host_end, c->port, c->pathname_start, c->search_start, c->hash_start};
+  const uint32_t ev8[8] = {e.protocol_end, e.username_end, e.host_start, e.host_end, e.port, e.pathname_start, e.search_start, e.hash_start};
+  static const char* nm[8] = {"protocol_end", "username_end", "host_start", "host_end", "port", "pathname_start", "search_start", "hash_start"};
+  R.evaluations++;
+  for (int i = 0; i < 8; i++)
+    if (cv8[i] != ev8[i]) {
+      viol(g + "ada_get_components:held-pointer:" + nm[i], ctx + " pointer taken earlier reads C=" + std::to_string(cv8[i]) + " C++ reference=" + std::to_string(ev8[i]) + " href=" + sv(u->get_href()));
+      return false;
+    }
+  return true;
+}
+
 static const char* c_setter_name(uint8_t op) {
   static const char* n[] = {"ada_set_href", "ada_set_protocol", "ada_set_username", "ada_set_password", "ada_set_host", "ada_set_hostname",
                             "ada_set_port", "ada_set_pathname", "ada_set_search", "ada_set_hash", "ada_clear_port", "ada_clear_search", "ada_clear_hash"};
@@ -540,12 +558,15 @@ static std::string ops_show(const std::vector<const OpVal*>& ops) {
   for (auto* o : ops) { if (!s.empty()) s += " "; s += std::string(op_name(o->op)) + "(\"" + show(o->val) + "\")"; }
   return s;
 }
+static long long g_wit_limit = -1;  // >= 0: the case runs under ada_set_max_input_length(g_wit_limit) (stage "limithist")
 static std::string url_wit(const char* mode, const std::string& in, const std::string* base, const std::vector<const OpVal*>& ops) {
   JObj o;
   o.str("kind", "capi").str("prop", "C17").str("sub", "url").str("mode", mode).hexs("input", in).num("has_base", base ? 1 : 0);
   o.hexs("base", base ? *base : std::string());
   o.str("ops", ops_enc(ops));
-  o.str("show", "parse(\"" + show(in) + "\"" + (base ? ", \"" + show(*base) + "\"" : "") + ") " + ops_show(ops));
+  if (g_wit_limit >= 0) o.num("limit", g_wit_limit);
+  o.str("show", (g_wit_limit >= 0 ? "ada_set_max_input_length(" + std::to_string(g_wit_limit) + "); " : std::string()) + "parse(\"" + show(in) + "\"" +
+                    (base ? ", \"" + show(*base) + "\"" : "") + ") " + ops_show(ops));
   return o.done();
 }
 static size_t url_wsize(const std::string& in, const std::string* base, const std::vector<const OpVal*>& ops) {
@@ -561,9 +582,11 @@ static void run_direct(const std::string& in, const std::string* base, const std
   ada_url h = c_parse(in, base);
   RU u = cpp_parse(in, base);
   if (ops.empty() || every_step) cmp_url(h, u, "", "after parse:");
+  const ada_url_components* held = u ? ada_get_components(h) : nullptr;
   for (size_t i = 0; i < ops.size(); i++) {
     std::string ctx = "after step " + std::to_string(i + 1) + " " + op_name(ops[i]->op) + "(\"" + show(ops[i]->val) + "\"):";
     apply_both(h, u, *ops[i], "", ctx);
+    if (!cmp_held(held, u, "url/", ctx)) held = nullptr;  // before any other ada_get_components call
     if (every_step || i + 1 == ops.size()) cmp_url(h, u, "", ctx);
   }
   ada_free(h);
@@ -578,6 +601,8 @@ static void run_copy_chain(const std::string& in, const std::string* base, const
   hs.push_back(c_parse(in, base));
   us.push_back(cpp_parse(in, base));
   cmp_url(hs[0], us[0], "", "after parse:");
+  std::vector<const ada_url_components*> held;
+  held.push_back(us[0] ? ada_get_components(hs[0]) : nullptr);
   for (size_t i = 0; i < ops.size(); i++) {
     std::string ctx = "copy step " + std::to_string(i + 1) + " " + op_name(ops[i]->op) + "(\"" + show(ops[i]->val) + "\"):";
     ada_url hc = ada_copy(hs.back());
@@ -585,9 +610,13 @@ static void run_copy_chain(const std::string& in, const std::string* base, const
     apply_both(hc, uc, *ops[i], "ada_copy>", ctx);
     cmp_url(hc, uc, "ada_copy>", ctx + " copy");
     cmp_url(hs.back(), us.back(), "ada_copy>", ctx + " source-after-copy-mutation");
+    held.push_back(uc ? ada_get_components(hc) : nullptr);
     hs.push_back(hc);
     us.push_back(std::move(uc));
   }
+  // every pointer taken along the way still reads its own handle's offsets, whatever was called on the other handles since
+  for (size_t i = 0; i < hs.size(); i++)
+    if (!cmp_held(held[i], us[i], "copy/ada_copy>", "handle " + std::to_string(i) + " of the chain, at the end:")) break;
   for (size_t i = hs.size(); i-- > 0;) ada_free(hs[i]);
 }
 
@@ -981,6 +1010,42 @@ static void run_misc_stage(const Params& P, int sh, int ns, uint64_t lo, uint64_
   R.count("misc_strings", n);
 }
 
+// ================================================================== (iv-b) setter histories under a length limit
+// The limit is part of the history: a C wrapper that adds its own length logic in front of the C++ setter agrees with it
+// when no limit is configured and differs only near one. Every limit 0..48 x initial URLs with one long component each x
+// every history of <= 2 setter calls with a short and a long value per setter, handle parsed under the limit.
+static void run_limit_hist_stage(int sh, int ns) {
+  static const std::vector<std::string> inits = {"http://h/p", "http://h/p#aaaaaaaaaaaaaaaa", "http://h/p?qqqqqqqqqqqqqqqq",
+                                                 "http://uuuuuuuu:pppppppp@h:8080/p", "a:/pppppppppppppppp", "file:///p"};
+  const std::string L16(16, 'b');
+  std::vector<OpVal> m = {{SET_PROTOCOL, "https"}, {SET_PROTOCOL, "ws"}, {SET_USERNAME, ""}, {SET_USERNAME, "u"}, {SET_USERNAME, L16},
+                          {SET_PASSWORD, ""}, {SET_PASSWORD, "p"}, {SET_PASSWORD, L16}, {SET_HOST, "x"}, {SET_HOST, L16}, {SET_HOST, "x:99"},
+                          {SET_HOSTNAME, "y"}, {SET_HOSTNAME, L16}, {SET_PORT, ""}, {SET_PORT, "9"}, {SET_PORT, "65535"},
+                          {SET_PATHNAME, "/"}, {SET_PATHNAME, "/b"}, {SET_PATHNAME, "/" + L16}, {SET_SEARCH, ""}, {SET_SEARCH, "b"}, {SET_SEARCH, L16},
+                          {SET_HASH, ""}, {SET_HASH, "bb"}, {SET_HASH, L16}, {SET_HREF, "http://n/"}, {SET_HREF, "http://nnnnnnnnnnnnnnnn/n"}};
+  uint64_t ord = 0, n = 0;
+  std::vector<const OpVal*> path;
+  for (uint32_t L = 0; L <= 48; L++)
+    for (auto& in : inits) {
+      auto one = [&] {
+        if (int(ord++ % uint64_t(ns)) != sh) return;
+        g_wit_limit = L;
+        ada_set_max_input_length(L);
+        guarded("limithist", [&] { run_direct(in, nullptr, path, false); });
+        n++;
+      };
+      one();
+      for (auto& a : m) {
+        path.push_back(&a); one();
+        for (auto& b : m) { path.push_back(&b); one(); path.pop_back(); }
+        path.pop_back();
+      }
+    }
+  g_wit_limit = -1;
+  ada_set_max_input_length(NOLIMIT);
+  R.count("limit_histories", n);
+}
+
 // ================================================================== (v) version
 static void run_version() {
   begin_case(JObj().str("kind", "capi").str("prop", "C17").str("sub", "version").done(), 1);
@@ -1047,9 +1112,12 @@ static int replay(const Args& A) {
     }
     std::vector<const OpVal*> po;
     for (auto& o : ops) po.push_back(&o);
+    const std::string lim = json_get_str(doc, "limit");
+    if (!lim.empty()) { g_wit_limit = atoll(lim.c_str()); ada_set_max_input_length(uint32_t(g_wit_limit)); }
     if (mode == "copy") run_copy_chain(in, hb ? &base : nullptr, po);
     else if (mode == "copy2") run_copy2(in, hb ? &base : nullptr, po);
     else run_direct(in, hb ? &base : nullptr, po, true);
+    ada_set_max_input_length(NOLIMIT);
   } else if (sub == "params") {
     std::string init = unhex(json_get_str(doc, "init"));
     std::vector<POp> ops;
@@ -1112,7 +1180,7 @@ int main(int argc, char** argv) {
   Params P = params_from(A, nullptr);
   const int sh = A.shard, ns = std::max(1, A.nshards);
   std::map<std::string, std::string> extra;
-  const std::string stages = A.get("stages", "header,version,url,params,misc");
+  const std::string stages = A.get("stages", "header,version,url,params,misc,limithist");
   auto want = [&](const char* s) { return ("," + stages + ",").find(std::string(",") + s + ",") != std::string::npos; };
 
   // ---- the function list comes from the header
@@ -1155,6 +1223,7 @@ int main(int argc, char** argv) {
   if (want("params")) run_params_stage(P, sh, ns, 0, ~0ull, BP);
   Batcher BM; BM.stage = "misc"; BM.P = &P; BM.sh = sh; BM.ns = ns; BM.K = P.K;
   if (want("misc")) run_misc_stage(P, sh, ns, 0, ~0ull, BM);
+  if (want("limithist")) run_limit_hist_stage(sh, ns);
 
   R.count("c_calls_compared", g_calls);
   R.count("leak_checks", BU.checks + BP.checks + BM.checks);
